@@ -3,6 +3,7 @@ package main
 import (
 	"fmt"
 	"go/token"
+	"sort"
 	"strings"
 
 	"golang.org/x/tools/go/ssa"
@@ -293,4 +294,154 @@ func c17RewriteReachesH2Upstream(c *Ctx) {
 		return ok
 	}, edgeOK)
 	c.Check("C17.R10", funcKey(fn)+":rewritten-path-reaches-upstream", fn.Pos(), bad == nil, "on every path the outgoing request's URL is rebuilt from the path variable or found equal to it", "the HTTP/2 client can hand a request to the upstream whose URL was neither rebuilt from the path variable nor compared with it (a request that came from an HTTP/2 downstream is forwarded with its received URL): a configured prefix_rewrite / regex_rewrite is silently ignored on HTTP/2 to HTTP/2 routes")
+}
+
+// c17RedirectPortTable (R11): a scheme redirect drops the port exactly when it is the default port of the scheme the
+// request arrived on. `http://host:80/x` redirected to https must become `https://host/x` (port 80 would be wrong for
+// https), and `https://host:443/x` redirected to http must become `http://host/x`; every other explicit port is kept.
+// In terms of the *new* scheme the host loses its port iff (new scheme, port) is (https, "80") or (http, "443"). The
+// decision table is read off the code: for each of the four combinations of {http, https} x {"80", "443"} the conditions
+// on the URL's Scheme field and on SplitHostPort's port result are evaluated (also through a boolean helper of the
+// package called with those two values) and the store that strips the port must be reachable exactly for those two.
+func c17RedirectPortTable(c *Ctx, pp string) {
+	var fn *ssa.Function
+	var split *ssa.Call
+	for _, f := range c.PkgFuncs(pp) {
+		for _, cs := range callsIn(f, false, func(cc *ssa.CallCommon) bool { return calleeName(cc) == "net.SplitHostPort" }) {
+			// the one whose result feeds a store to url.URL.Host
+			hasStore := false
+			forEachInstr(f, false, func(_ *ssa.Function, in ssa.Instruction) {
+				if st, ok := in.(*ssa.Store); ok {
+					if tn, fld, _, okf := fieldAddrInfo(st.Addr); okf && fld == "Host" && strings.HasSuffix(tn, "net/url.URL") {
+						if ex, isE := st.Val.(*ssa.Extract); isE && ex.Tuple == ssa.Value(cs.Instr.(*ssa.Call)) && ex.Index == 0 {
+							hasStore = true
+						}
+					}
+				}
+			})
+			if hasStore {
+				fn, split = f, cs.Instr.(*ssa.Call)
+			}
+		}
+	}
+	if fn == nil {
+		c.Unresolved("C17.R11", "the redirect code that strips a default port from the Location (net.SplitHostPort + store to url.URL.Host)")
+		return
+	}
+	var strip ssa.Instruction
+	var port ssa.Value
+	for _, r := range refs(split) {
+		if ex, ok := r.(*ssa.Extract); ok && ex.Index == 1 {
+			port = ex
+		}
+		if ex, ok := r.(*ssa.Extract); ok && ex.Index == 0 {
+			for _, rr := range refs(ex) {
+				if st, isS := rr.(*ssa.Store); isS {
+					strip = st
+				}
+			}
+		}
+	}
+	if strip == nil || port == nil {
+		c.Unresolved("C17.R11", "port result / strip store of the redirect code")
+		return
+	}
+	isScheme := func(v ssa.Value) bool {
+		_, f, _, ok := loadedField(v)
+		return ok && f == "Scheme"
+	}
+	// evaluate a boolean helper of the package under an assignment of its parameters
+	var mayReturn func(h *ssa.Function, env map[ssa.Value]string, want bool, d int) bool
+	edgeFilter := func(env map[ssa.Value]string, schemeVal, portVal string, d int) func(from, to *ssa.BasicBlock) bool {
+		val := func(v ssa.Value) (string, bool) {
+			if s, ok := env[v]; ok {
+				return s, true
+			}
+			if isScheme(v) && schemeVal != "" {
+				return schemeVal, true
+			}
+			if v == port && portVal != "" {
+				return portVal, true
+			}
+			return "", false
+		}
+		return func(from, to *ssa.BasicBlock) bool {
+			ifi, ok := from.Instrs[len(from.Instrs)-1].(*ssa.If)
+			if !ok || from.Succs[0] == from.Succs[1] {
+				return true
+			}
+			taken := from.Succs[0] == to
+			switch x := ifi.Cond.(type) {
+			case *ssa.BinOp:
+				if x.Op != token.EQL && x.Op != token.NEQ {
+					return true
+				}
+				var a, b string
+				var oka, okb bool
+				if k, isK := constStringVal(x.Y); isK {
+					a, oka = val(x.X)
+					b, okb = k, true
+				} else if k, isK := constStringVal(x.X); isK {
+					a, oka = val(x.Y)
+					b, okb = k, true
+				}
+				if !oka || !okb {
+					return true
+				}
+				return ((a == b) == (x.Op == token.EQL)) == taken
+			case *ssa.Call:
+				h := x.Common().StaticCallee()
+				if h == nil || len(h.Blocks) == 0 || h.Pkg != from.Parent().Pkg || d > 2 {
+					return true
+				}
+				sub := map[ssa.Value]string{}
+				for i, a := range x.Common().Args {
+					if i < len(h.Params) {
+						if s, ok := val(a); ok {
+							sub[h.Params[i]] = s
+						}
+					}
+				}
+				return mayReturn(h, sub, taken, d+1)
+			}
+			return true
+		}
+	}
+	mayReturn = func(h *ssa.Function, env map[ssa.Value]string, want bool, d int) bool {
+		ef := edgeFilter(env, "", "", d)
+		return existsPathEdges(h, nil, func(in ssa.Instruction) bool {
+			ret, ok := in.(*ssa.Return)
+			if !ok || len(ret.Results) != 1 {
+				return false
+			}
+			if b, isB := constBool(ret.Results[0]); isB {
+				return b == want
+			}
+			// `return port == "80"`: a comparison as the result
+			if bo, isBO := ret.Results[0].(*ssa.BinOp); isBO && (bo.Op == token.EQL || bo.Op == token.NEQ) {
+				if k, isK := constStringVal(bo.Y); isK {
+					if s, known := env[bo.X]; known {
+						return ((s == k) == (bo.Op == token.EQL)) == want
+					}
+				}
+			}
+			return true // unknown result: may be anything
+		}, nil, ef) != nil
+	}
+	want := map[string]bool{"https|80": true, "http|443": true, "http|80": false, "https|443": false}
+	var wrong []string
+	for _, sch := range []string{"http", "https"} {
+		for _, pt := range []string{"80", "443"} {
+			got := existsPathEdges(fn, split, func(in ssa.Instruction) bool { return in == strip }, nil, edgeFilter(map[ssa.Value]string{}, sch, pt, 0)) != nil
+			if got != want[sch+"|"+pt] {
+				verb := "keeps"
+				if got {
+					verb = "drops"
+				}
+				wrong = append(wrong, fmt.Sprintf("redirect to %s %s port %s", sch, verb, pt))
+			}
+		}
+	}
+	sort.Strings(wrong)
+	c.Check("C17.R11", funcKey(fn)+":redirect-default-port-table", strip.Pos(), len(wrong) == 0, "the port is dropped exactly for (https, 80) and (http, 443)", "the Location of a scheme redirect handles explicit default ports wrongly ("+strings.Join(wrong, "; ")+"): `http://host:80/x` redirected to https must become `https://host/x` and `https://host:443/x` redirected to http must become `http://host/x`, every other port is kept")
 }
